@@ -7,6 +7,7 @@ Simulated histories come in four families (key "fam" of the history, ignored by 
   host : resolve_hostname + injected A/AAAA responses (cache-flush, two interfaces)
   ptr  : browse + injected PTR responses (several instances, flush bit, goodbyes, fresh copies)
   svc  : browse + one complete service (PTR, SRV, TXT, A), later fresh copies of parts of it
+  mix  : svc + a hostname resolver for the service's host (address Vec refreshed by both)
   resp : registered services + injected queries with known answers (C10 responder side)
 """
 import ipaddress
@@ -290,6 +291,15 @@ def gen_svc(rng, hid):
     return history("svc", hid, rng.choice([IF_ONE, IF_TWO]), pl.steps)
 
 
+def gen_mix(rng, hid):
+    """a browsed service whose host name is also being resolved: the address Vec is refreshed
+    by both mechanisms (ladder for the browse, once for the resolver)"""
+    h = gen_svc(rng, hid)
+    h["fam"] = "mix"
+    h["steps"][0]["calls"].append({"op": "resolve_hostname", "host": HOST, "ch": "r"})
+    return h
+
+
 # ---- responder histories (C10)
 
 def resp_service(k):
@@ -450,7 +460,7 @@ def project_cache(h, r):
             items.append("%d:%s" % (it["now"], ";".join(toks)))
     if dead(r):
         items.append("DEAD")
-    return " | ".join(items) if items else "-"
+    return "SIM " + (" | ".join(items) if items else "-")
 
 
 def model_input_cache(h, r):
@@ -512,8 +522,8 @@ def fmt_response(pks):
 def project_resp(h, r):
     base, qs = resp_steps(h, r)
     if dead(r):
-        return "DEAD"
-    return " # ".join(fmt_response(responses_of(it)) for _, it in qs) if qs else "-"
+        return "RSP DEAD"
+    return "RSP " + (" # ".join(fmt_response(responses_of(it)) for _, it in qs) if qs else "-")
 
 
 def model_input_resp(h, r):
@@ -576,7 +586,21 @@ def model_input(line, raw):
 def shrink(line, still_bad):
     if line.startswith("lsim "):
         import vlib
-        return "lsim " + vlib.shrink_history(line[5:], lambda l: still_bad("lsim " + l))
+        return "lsim " + vlib.shrink_history(line[5:], lambda l: still_bad("lsim " + l), max_tries=120)
+    if line.startswith("life "):
+        # drop operations one at a time while the case stays bad
+        kind, r, ops = line.split(" ")
+        ops = ops.split(";")
+        changed = True
+        while changed and len(ops) > 1:
+            changed = False
+            for i in range(len(ops) - 1, -1, -1):
+                cand = ops[:i] + ops[i + 1:]
+                if still_bad("%s %s %s" % (kind, r, ";".join(cand))):
+                    ops = cand
+                    changed = True
+                    break
+        return "%s %s %s" % (kind, r, ";".join(ops))
     return None
 
 
